@@ -230,6 +230,17 @@ class Contract(object):
         return fmt.format(*args, **kwargs)
 
     def as_sseq(self, vm, it):
+        hook = vm.hooks.get('iterate')
+        if hook:
+            r = hook(vm, it)
+            if isinstance(r, SSeq):
+                return r
+            if r is not NotImplemented and hasattr(r, 'seq'):
+                return r.seq
+        if isinstance(it, I.GenCall):
+            seq = vm.gencall_as_sseq(it)
+            if seq is not None:
+                return seq
         items = vm.iterate(it)
         return SSeq(z3.IntVal(len(items)), lambda i: _pick(items, i), 'list')
 
